@@ -970,7 +970,8 @@ def apply_obligations(F, A, an, sites):
     from . import obligations, requires
     R = requires.Req(F, A, an)
     used = set()
-    for s in sites:
+    quota = {}
+    for s in sorted(sites, key=lambda x: x.key):
         if s.status is not None:
             continue
         # a site inside a closure is also offered to the obligations of the function the closure belongs to
@@ -982,6 +983,11 @@ def apply_obligations(F, A, an, sites):
                 continue
             if ob.get("operand") and not re.search(ob["operand"], s.operand):
                 continue
+            if ob.get("max_sites") is not None:
+                qk = (ob["id"], ob["fn"], ob["site"])
+                if quota.get(qk, 0) >= ob["max_sites"]:
+                    continue   # more sites of this kind than were reviewed: the extra one is not covered
+                quota[qk] = quota.get(qk, 0) + 1
             res = [(r,) + R.check(r) for r in ob["requires"]]
             bad = [r for r in res if not r[1]]
             if bad and ob.get("alt"):
